@@ -83,9 +83,20 @@ type Cell struct {
 
 func S(t *Term) *Scalar { return &Scalar{T: t} }
 
+// StringTheory switches Go strings from opaque integers to the SMT String sort
+// (used for the file-name functions of cmd/cff).
+var StringTheory = false
+
+const SString = "String"
+
 func sortOfType(t types.Type) string {
-	if b, ok := t.Underlying().(*types.Basic); ok && b.Info()&types.IsBoolean != 0 {
-		return SBool
+	if b, ok := t.Underlying().(*types.Basic); ok {
+		if b.Info()&types.IsBoolean != 0 {
+			return SBool
+		}
+		if StringTheory && b.Info()&types.IsString != 0 {
+			return SString
+		}
 	}
 	return SInt
 }
